@@ -756,15 +756,6 @@ def _r4(ctx, pkg, rule="R4"):
                 undecided.append(a_)        # a test of the argument this rule cannot evaluate for a list of positions
         return guards_satisfiable(gs, extra)
 
-    def certain(guards):
-        """every test on the way is one the scenario decides: the statement DOES run for a list of positions (a test this rule
-        cannot read -- an opaque predicate -- leaves that open: no verdict can rest on such a case)"""
-        atoms = set()
-        for g, pol in guards:
-            for c, _ in split_guard((simp(g), pol)):
-                _bool_atoms(c, atoms)
-        return all(any(re.search(pat, show(a_)) for pat, _ in SCEN) for a_ in atoms)
-
     # everything that changes self.reaction_list, case by case
     cases = []          # (kind, leaf | None, fact, every test of the argument on the way was evaluated)
     for f in fl.facts:
@@ -825,17 +816,9 @@ def _r4(ctx, pkg, rule="R4"):
         verdicts.append((ok, wrong, v, f))
     if all(o for o, _, _, _ in verdicts):
         ctx.ok(rule, K, W, "exactly the reactions whose position is not listed survive (repeated indices are harmless)")
-    elif any(w and sure.get((id(f), v)) for _, w, v, f in verdicts):
-        _, _, v, f = next(x for x in verdicts if x[1] and sure.get((id(x[3]), x[2])))
-        ctx.bad(rule, K, (NF, f.line), BADMSG, expected=EXP, found=show(v)[:120])
-    elif all(w for _, w, _, _ in verdicts):
-        # every statement that can change the list for a list of positions is understood and removes by something else than the
-        # position: whichever of them runs is wrong -- and if none runs, the listed positions are not removed at all
-        _, _, v, f = verdicts[0]
-        ctx.bad(rule, K, (NF, f.line), BADMSG, expected=EXP, found=show(v)[:120])
     elif any(w for _, w, _, _ in verdicts):
         _, _, v, f = next(x for x in verdicts if x[1])
-        ctx.unrec(rule, K, (NF, f.line), f"whether this rebuild runs for a list of positions depends on a test this rule cannot read: {show(v)[:100]}")
+        ctx.bad(rule, K, (NF, f.line), BADMSG, expected=EXP, found=show(v)[:120])
     else:
         _, _, v, f = next(x for x in verdicts if not x[0])
         ctx.unrec(rule, K, (NF, f.line), f"the list built for a list of positions is not recognised: {show(v)[:120]}")
